@@ -282,6 +282,52 @@ def w_related(part):
     return acc.res()
 
 
+def corner_frames(tc):
+    """joint corner values: a frame type's fields pairwise at their corner values (0, 1, top bit only, all ones), the other
+    fields at a default - the messages on which a computed quantity degenerates (speed 0, altitude 0, angle 0 ...)."""
+    layouts = {
+        19: [(6, 3), (9, 1), (10, 1), (11, 3), (14, 1), (15, 10), (25, 1), (26, 10), (36, 1), (37, 1), (38, 9), (47, 2), (49, 1), (50, 7)],
+        29: [(6, 2), (8, 1), (9, 1), (10, 11), (21, 9), (30, 1), (31, 1), (32, 8), (40, 4), (44, 1), (45, 2), (47, 1), (48, 1), (49, 1), (50, 1), (51, 1), (52, 1), (53, 1), (54, 3)],
+        31: [(6, 3), (9, 16), (25, 16), (41, 3), (44, 1), (45, 4), (49, 2), (51, 2), (53, 1), (54, 1), (55, 1), (56, 1)],
+        28: [(6, 3), (9, 3), (12, 13), (25, 32)],
+        5: [(6, 7), (13, 1), (14, 7), (21, 1), (22, 1), (23, 17), (40, 17)],
+        11: [(6, 2), (8, 1), (9, 12), (21, 1), (22, 1), (23, 17), (40, 17)],
+        4: [(6, 3), (9, 6), (15, 6), (21, 6), (27, 6), (33, 6), (39, 6), (45, 6), (51, 6)],
+    }[tc]
+    dflt = {19: {6: 1, 15: 100, 26: 200, 38: 17, 50: 5}, 29: {6: 1, 10: 1001, 21: 300, 30: 1, 32: 40, 47: 1}, 31: {41: 2}, 28: {6: 1, 12: 0x0AAA},
+            5: {6: 20, 13: 1, 14: 30, 23: 4000, 40: 9000}, 11: {9: 0xC38, 23: 4000, 40: 9000}, 4: {9: 11, 15: 12, 21: 13}}[tc]
+
+    def cor(w):
+        return sorted({0, 1, 1 << (w - 1), (1 << w) - 1})
+    out = []
+    for i in range(len(layouts)):
+        for j in range(i + 1, len(layouts)):
+            (s1, w1), (s2, w2) = layouts[i], layouts[j]
+            for v1 in cor(w1):
+                for v2 in cor(w2):
+                    f = {s_: dflt.get(s_, 0) for s_, _ in layouts}
+                    f[s1], f[s2] = v1, v2
+                    out.append(F.es(F.me(tc, [(s_, w_, f[s_]) for s_, w_ in layouts]), 0x4840D6, 5, 17 + (i + j) % 2))
+    return list(dict.fromkeys(out))
+
+
+def w_corners(arg):
+    tc, part = arg
+    acc = Acc()
+    tab = table()
+    for k, msg in enumerate(corner_frames(tc)[part::4]):
+        if k % 3 == 1:
+            msg = msg.lower()
+        for name, f, extras, kind, guard in tab:
+            for extra in extras[:1]:
+                acc.n += 1
+                s = judge(name, extra, msg)
+                if s:
+                    acc.bad(s + ":joint_corner_values", {"kind": "call", "name": name, "extra": list(extra), "msg": msg})
+        acc.out.add(("corner", tc, msg))
+    return acc.res()
+
+
 def w_forms(part):
     """argument forms: every callable must answer a frame the same way when the arguments are passed by the names its
     own signature advertises, and when the frame is a numpy.str_ (what iterating a numpy array of hex strings yields)
@@ -495,6 +541,8 @@ def w_any(t):
         return w_related(t[1])
     if t[0] == "a":
         return w_forms(t[1])
+    if t[0] == "k":
+        return w_corners(t[1])
     return w_dispatch(None) if t[0] == "d" else w_frames(t[1])
 
 
@@ -509,6 +557,7 @@ def run(ctx):
     tasks += [("l", (df, tc)) for df in ((17, 18) if ctx.thorough else (17,)) for tc in range(32)]
     tasks += [("s", part) for part in range(8)]
     tasks += [("a", part) for part in range(4)]
+    tasks += [("k", (tc, part)) for tc in (19, 29, 31, 28, 5, 11, 4) for part in range(4)]
     tasks += [("c", df) for df in ((0, 4, 5, 11, 16, 17, 18, 20, 21, 24) if not ctx.thorough else range(32))]
     ctx.pmap(w_any, tasks)
     ctx.cov["functions"] = len(table())
@@ -538,7 +587,7 @@ def replay(case):
     if case["kind"] == "call":
         s = judge(case["name"], tuple(case["extra"]), case["msg"])
         if s:
-            return [(s, case), (s + ":register_payload", case), (s + ":parity_sweep", case)]
+            return [(s, case), (s + ":register_payload", case), (s + ":parity_sweep", case), (s + ":joint_corner_values", case)]
     else:
         s = judge_dispatch(case["sub"], tuple(case["p"]))
     return [(s, case)] if s else []
